@@ -3,5 +3,7 @@ import NormModel.Properties.C02
 #print axioms Norm.C02.ternary_e2e
 #print axioms Norm.C02.ternary_sound
 #print axioms Norm.C02.trailing_space_e2e
+#print axioms Norm.C02.many_instr_e2e
+#print axioms Norm.C02.many_instr_sound
 #print axioms Norm.C02.counters_fire
 #print axioms Norm.C02.verdict_error
